@@ -819,6 +819,9 @@ func (r *Run) exec(f *frame) Value {
 						a := alts[chosen]
 						next = a.target
 						if a.merged {
+							for pi, phi := range a.phis {
+								f.locals[phi] = a.vals[pi]
+							}
 							f.skipPhis = true
 						} else {
 							mergedFrom = a.from
